@@ -88,7 +88,7 @@ def code_lines(path):
             continue
         if not s or s.startswith(("//", "#", "*", "using ", "namespace ", "}", "{", "case ", "default:", "return;", "break;")):
             continue
-        if "TINS_VERIF_HOOKS" in s or '"' in s or "throw " in s and "(" not in s.replace("()", ""):
+        if "verif_" in s or "VerifHooks" in s or "TINS_VERIF_HOOKS" in s or '"' in s or "throw " in s and "(" not in s.replace("()", ""):
             continue
         if l.startswith((" ", "\t")):
             out.append(i)
